@@ -37,10 +37,19 @@ def _verify_one(job):
         fn_key, variant = fn_key.split("@", 1)
     c = db.contracts[fn_key]
     if variant is not None:
-        c.binds = {**c.binds, **c.variants[variant]}
+        v = dict(c.variants[variant])
+        override = v.pop("__override__", None)      # a variant may also replace contract fields (a second spec of the same body)
+        c.binds = {**c.binds, **v}
+        c.active_variant = variant
+        for k, val in (override or {}).items():
+            if not hasattr(c, k):
+                raise ValueError(f"variant {variant} of {fn_key}: unknown contract field {k}")
+            setattr(c, k, val)
     if extra_requires:
         c.requires = list(c.requires) + list(extra_requires)
     t0 = time.time()
+    from . import smt as _smt
+    sec0 = dict(_smt.SECOND)
     try:
         fv = FunctionVerifier(repo, db, c)
         rep = fv.run(start=start, budget=budget)
@@ -75,7 +84,9 @@ def _verify_one(job):
             "notes": sorted(rep.notes), "exits": rep.exits, "schema": rep.schema,
             "unreached_raises": [],
             "clock": list(c.clock), "ensures": dict(c.ensures), "raises": {r.exc: r.when for r in c.raises},
-            "pending": getattr(rep, "pending", []), "raised_classes": sorted(rep.raised_classes),
+            "pending": getattr(rep, "pending", []), "raised_classes": sorted(rep.raised_classes), "body_shas": sorted(rep.body_shas),
+            "covered": dict(rep.covered), "covers": list(c.covers),
+            "second_opinion": {k: _smt.SECOND[k] - sec0.get(k, 0) for k in _smt.SECOND},
             "declared_raises": [r.exc for r in c.raises]}
 
 
@@ -110,9 +121,16 @@ def _merge(merged, res):
     cur["error"] = cur["error"] or res["error"]
     cur["crash"] = cur["crash"] or res["crash"]
     cur["raised_classes"] = sorted(set(cur.get("raised_classes", [])) | set(res.get("raised_classes", [])))
+    cur["body_shas"] = sorted(set(cur.get("body_shas", [])) | set(res.get("body_shas", [])))
     for k, v in (res.get("exits") or {}).items():
         cur.setdefault("exits", {})[k] = cur.get("exits", {}).get(k, 0) + v
     cur["schema"] = cur.get("schema") or res.get("schema")
+    for k, v in (res.get("second_opinion") or {}).items():
+        cur.setdefault("second_opinion", {})[k] = cur.get("second_opinion", {}).get(k, 0) + v
+    rank = {"sat": 2, "unknown": 1, "unsat": 0}
+    for k, v in (res.get("covered") or {}).items():
+        if rank[v] >= rank.get(cur.setdefault("covered", {}).get(k, "unsat"), 0):
+            cur["covered"][k] = v
 
 
 def _finalize(r):
@@ -122,6 +140,10 @@ def _finalize(r):
             r["crash"] = "vacuous: no path is satisfiable under the preconditions"
         elif not r["obligations"]:
             r["crash"] = "vacuous: zero obligations generated"
+    if not (r["error"] or r["crash"]):
+        missing = [k for k in r.get("covers", []) if (r.get("covered") or {}).get(k, "unsat") == "unsat"]
+        if missing:
+            r["crash"] = f"vacuity guard: covers never reachable on any normal return: {missing}"
     if not (r["error"] or r["crash"]):
         r["unreached_raises"] = [x for x in r.get("declared_raises", [])
                                  if not any(_sub(y, x) for y in r.get("raised_classes", []))]
@@ -146,13 +168,17 @@ def run_check(prop, tier, repo_root, only=None, verbose=False):
     from .report import finish
     t0 = time.time()
     sys.path.insert(0, HERE)
+    if tier == "thorough":
+        os.environ.setdefault("PYVC_SECOND_OPINION", "1")     # inherited by the worker processes
     try:
         repo, db = load(repo_root)
     except Exception as exc:  # noqa: BLE001
         print(f"CHECKER-ERROR property={prop}: cannot load: {exc}")
         traceback.print_exc()
         return 3
-    keys = [k for k, c in db.contracts.items() if prop in c.serves and not c.assumed and not c.bounded and "::" in k
+    def serves(c):
+        return prop in c.serves or any(prop in (v.get("__override__") or {}).get("serves", []) for v in c.variants.values())
+    keys = [k for k, c in db.contracts.items() if serves(c) and not c.assumed and not c.bounded and "::" in k
             and not c.inline_in_harness and not (c.inline and not c.ensures and not c.raises)]
     bounded = [c for c in db.contracts.values() if prop in c.serves and c.bounded]
     if only:
@@ -162,7 +188,8 @@ def run_check(prop, tier, repo_root, only=None, verbose=False):
     for k in keys:
         vs = db.contracts[k].variants
         if vs:
-            jobs += [(repo_root, f"{k}@{v}", [], prop) for v in vs]
+            jobs += [(repo_root, f"{k}@{v}", [], prop) for v, spec in vs.items()
+                     if prop in (spec.get("__override__") or {}).get("serves", db.contracts[k].serves)]
         else:
             jobs.append((repo_root, k, [], prop))
     results, lemma_results = [], []
@@ -206,7 +233,25 @@ def run_check(prop, tier, repo_root, only=None, verbose=False):
             return "discharged"
         return e["status"]
 
+    def recheck(fn_key, obname):
+        """second, unhurried attempt at one function (serial, three times the solver budgets) before an obligation that
+        was proved on the unchanged tree is reported as lost: a verdict must not depend on machine load"""
+        from . import smt as _smt
+        saved = (_smt.CVC5_TIMEOUT_S, _smt.FRESH_TIMEOUT_MS, _smt.FIRST_TIMEOUT_MS)
+        _smt.CVC5_TIMEOUT_S, _smt.FRESH_TIMEOUT_MS, _smt.FIRST_TIMEOUT_MS = saved[0] * 3, saved[1] * 3, saved[2] * 2
+        _smt.HARD.clear()
+        try:
+            res = _verify_one((repo_root, fn_key, [], prop))
+            _finalize(res)
+        finally:
+            _smt.CVC5_TIMEOUT_S, _smt.FRESH_TIMEOUT_MS, _smt.FIRST_TIMEOUT_MS = saved
+        if res["error"] or res["crash"]:
+            return "undecided"
+        e = res["obligations"].get(obname)
+        return e["status"] if e is not None else "undecided"
+
     extra = dict(db.meta.get(prop, {}))
+    extra["recheck"] = recheck
     extra["bounded"] = list(extra.get("bounded", []))
     extra["bounded_failures"] = []
     for c in ([] if only else bounded):
